@@ -46,21 +46,18 @@ def main():
             vals = req["roundtrip"]
             (proj / "config.py").write_text(
                 "from pytask import DataCatalog\n" + "".join(f"cat{i} = DataCatalog(name={c!r})\n" for i, c in enumerate(vals["catalogs"])))
-            lines = ["from typing import Annotated", "from pathlib import Path", "import json", "from config import *", ""]
-            for j, (ci, ename, val) in enumerate(vals["items"]):
-                lines += [f"def task_p{j}() -> Annotated[object, cat{ci}[{ename!r}]]:", f"    return {val}", ""]
-                lines += [f"def task_c{j}(x: Annotated[object, cat{ci}[{ename!r}]], out: Annotated[Path, __import__('pytask').Product] = Path(__file__).parent / 'out{j}.json'):",
-                          f"    out.write_text(json.dumps(repr(x)))", ""]
-            (proj / "task_rt.py").write_text("\n".join(lines))
             code = ("import sys, json, pytask\nfrom pathlib import Path\n"
                     f"s = pytask.build(paths=[Path({str(proj)!r})])\n"
                     "print(json.dumps({'exit': int(s.exit_code), 'out': [(r.task.name, r.outcome.name) for r in s.execution_reports]}))\n")
             def render(items):
-                lines = ["from typing import Annotated", "from pathlib import Path", "import json", "from config import *", ""]
+                # every entry has two consumers; each writes down what it received and then works on the value in place
+                lines = ["from typing import Annotated", "from pathlib import Path", "import json", "from config import *", "",
+                         "def _use(x):", "    if isinstance(x, list):", "        x.append('used')", "    elif isinstance(x, dict):", "        x['used'] = 1", ""]
                 for j, (ci, ename, val) in enumerate(items):
                     lines += [f"def task_p{j}() -> Annotated[object, cat{ci}[{ename!r}]]:", f"    return {val}", ""]
-                    lines += [f"def task_c{j}(x: Annotated[object, cat{ci}[{ename!r}]], out: Annotated[Path, __import__('pytask').Product] = Path(__file__).parent / 'out{j}.json'):",
-                              f"    out.write_text(json.dumps(repr(x)))", ""]
+                    for k, stem in (("c", "out"), ("d", "outd")):
+                        lines += [f"def task_{k}{j}(x: Annotated[object, cat{ci}[{ename!r}]], out: Annotated[Path, __import__('pytask').Product] = Path(__file__).parent / '{stem}{j}.json'):",
+                                  f"    out.write_text(json.dumps(repr(x)))", "    _use(x)", ""]
                 return "\n".join(lines)
 
             def build_once():
@@ -70,21 +67,23 @@ def main():
                 except Exception:  # noqa: BLE001
                     return {"exit": -1, "stderr": p.stderr[-1500:], "stdout": p.stdout[-1500:]}
 
-            def outs_now(n):
+            def outs_now(n, stem="out"):
                 o = []
                 for j in range(n):
-                    f = proj / f"out{j}.json"
+                    f = proj / f"{stem}{j}.json"
                     o.append(json.loads(f.read_text()) if f.exists() else None)
                 return o
+            (proj / "task_rt.py").write_text(render(vals["items"]))
             runs = [build_once(), build_once()]
             outs = outs_now(len(vals["items"]))
-            res["roundtrip"] = {"runs": runs, "outs": outs}
+            res["roundtrip"] = {"runs": runs, "outs": outs, "outsd": outs_now(len(vals["items"]), "outd")}
             if vals.get("items2"):
                 # the producers now return other values (some equal under == but of another type)
                 (proj / "task_rt.py").write_text(render(vals["items2"]))
                 runs2 = [build_once()]
                 res["roundtrip"]["runs2"] = runs2
                 res["roundtrip"]["outs2"] = outs_now(len(vals["items2"]))
+                res["roundtrip"]["outsd2"] = outs_now(len(vals["items2"]), "outd")
     finally:
         shutil.rmtree(d, ignore_errors=True)
     json.dump(res, sys.stdout)
